@@ -46,9 +46,9 @@ theorem wordSum_fold (arr : Bytes) (c0 : Nat) :
 
 /-- the carry fold `while checksum > 0xFFFF: checksum = (checksum >> 16) + (checksum & 0xFFFF)` with any fuel ≥ the
     checksum (every round makes it smaller) is the model's `implFold`: the fuel the translation gives it always suffices -/
-theorem fold_while (fuel s : Nat) (h : s ≤ fuel) :
+theorem fold_while (f : Nat → Nat) (hf : ∀ s, f s = s / 65536 + s % 65536) (fuel s : Nat) (h : s ≤ fuel) :
     whileS fuel s (fun (py_s : Nat) => decide (py_s > 65535))
-      (fun (py_s : Nat) => (Except.ok (Step.next ((py_s >>> 16) + (py_s &&& 65535))) : Except PyRt.Err (Step Nat (Except PyRt.Err Bytes))))
+      (fun (py_s : Nat) => (Except.ok (Step.next (f py_s)) : Except PyRt.Err (Step Nat (Except PyRt.Err Bytes))))
       = .ok (.next (implFold s)) := by
   induction fuel generalizing s with
   | zero =>
@@ -58,12 +58,18 @@ theorem fold_while (fuel s : Nat) (h : s ≤ fuel) :
   | succ n ih =>
     rw [whileS, implFold]
     by_cases hs : s > 65535
-    · have e1 : s >>> 16 = s / 65536 := by rw [Nat.shiftRight_eq_div_pow]
-      have e2 : s &&& 65535 = s % 65536 := Nat.and_two_pow_sub_one_eq_mod s 16
-      simp only [hs, decide_true, if_true]
-      rw [e1, e2]
-      exact ih _ (by omega)
+    · simp only [hs, decide_true, if_true]
+      rw [hf s]
+      refine ih (s / 65536 + s % 65536) ?_
+      omega
     · simp [hs]
+
+/-- one round of the fold, however its two halves are written -/
+theorem fold_round (s : Nat) : (s >>> 16) + (s &&& 65535) = s / 65536 + s % 65536 ∧
+    (s &&& 65535) + (s >>> 16) = s / 65536 + s % 65536 := by
+  have e1 : s >>> 16 = s / 65536 := by rw [Nat.shiftRight_eq_div_pow]
+  have e2 : s &&& 65535 = s % 65536 := Nat.and_two_pow_sub_one_eq_mod s 16
+  rw [e1, e2]; omega
 
 theorem not_add (x : Nat) : ((~~~(Int.ofNat x)) + (256 : Int)) = Int.ofNat (256 - (x + 1)) + (if x < 256 then 0 else (255 - x : Int)) := by
   show Int.negSucc x + 256 = _
@@ -113,7 +119,9 @@ theorem ones_complement_checksum_eq_model (b : Bytes) :
   simp only [wordSum_fold, Nat.zero_add]
   have hp : (if decide (b.length % 2 ≠ 0) = true then b ++ ([0] : Bytes) else b) = pad b := by
     unfold pad; by_cases h : b.length % 2 ≠ 0 <;> simp [h]
-  simp only [hp, fold_while _ _ (Nat.le_refl _), loopS_next]
+  simp only [hp]
+  rw [fold_while _ (fun s => by first | exact (fold_round s).1 | exact (fold_round s).2) _ _ (Nat.le_refl _)]
+  simp only [loopS_next]
   have hle : implFold (wordSum (pad b)) < 65536 := by
     generalize wordSum (pad b) = s
     induction s using Nat.strongRecOn with
